@@ -40,6 +40,10 @@ CHECKS = {
   "text": "Seeded search over sets of 1-6 futures with default and per-call timeouts (0.05-120 s) submitted at drawn virtual times from 1-3 threads, work ending before / at / after the deadline or never, TimeoutExecutor and f_timeout, x schedules. Every cancel() reaching a returned future is recorded by an instance-level spy; oracles in exact virtual time: none before submit-invocation + timeout, exactly one for a future not done at its deadline and no later than submit-return + timeout + 5 ms, none for futures done before, outcome unchanged.",
   "note": "120 s deadlines cost microseconds; the future's done-ness at the deadline is an interval [work end, set_result returned] - ambiguous cases are boundary cases; under injected stalls only 'never early' and 'at most once' are judged.",
   "design": "10 (C09)"},
+ "C10": {
+  "text": "Seeded search over 1-3 submitter threads racing the one shutdown() call (placed by semantic triggers and drawn times), earlier futures pending / running / done, done-callbacks that submit again, x schedules with line-level pre-emption inside submit() and shutdown(). Oracle over the history: every future a submit() returned that was certainly pending throughout the shutdown() call received exactly one cancel() from the shutdown thread inside that call; at most one in every case; the wrapped executor was shut down inside the call; deadlocks are reported with their cycle.",
+  "note": "Spy delegate futures record each cancel() with the calling thread; futures whose done-ness changes during the sweep may see 0 or 1.",
+  "design": "10 (C10)"},
 }
 def main():
     checks = []
